@@ -26,7 +26,8 @@ class Merge(object):
         self.status[st] = self.status.get(st, 0) + 1
         if st != 'ok':
             self.problems.append(dict(status=st, item=item,
-                                      detail=r.get('detail', '')[-3000:]))
+                                      detail=r.get('detail', '')[-3000:],
+                                      mark=r.get('mark')))
         self.evaluations += int(r.get('evaluations', 0))
         for k in r.get('distinct', []):
             self.distinct.add(k if isinstance(k, str) else repr(k))
@@ -59,6 +60,45 @@ def execute(modname, items, timeout=900, nproc=None, extra_env=None):
     for it, r in zip(items, res):
         m.add(it, r or dict(status='crash', detail='no result'))
     return m
+
+
+def execute_resilient(modname, items, timeout=900, nproc=None, extra_env=None,
+                      max_rounds=12):
+    """Like execute(), but an item whose worker crashed or hit the watchdog
+    is re-run with the crashing configuration (the worker's last breadcrumb)
+    added to item['skip'], so one crash costs one configuration, not the rest
+    of the item.  Returns (merge, crashes) with crashes = list of
+    dict(status, mark, item, detail)."""
+    m = Merge()
+    crashes = []
+    m.selfcheck = {}
+    for fl in sorted(set(it.get('flavour', 'plain') for it in items)):
+        if fl != 'plain':
+            m.selfcheck[fl] = runner.sanitizer_selfcheck(fl)
+    todo = [dict(it) for it in items]
+    for rnd in range(max_rounds):
+        if not todo:
+            break
+        res = runner.run_items(modname, todo, nproc=nproc, timeout=timeout,
+                               extra_env=extra_env, progress=(rnd == 0))
+        again = []
+        for it, r in zip(todo, res):
+            r = r or dict(status='crash', detail='no result')
+            if r.get('status') in ('crash', 'timeout', 'tainted') and \
+                    r.get('mark') and rnd < max_rounds - 1:
+                mk = r['mark']
+                if r.get('san'):
+                    m.san.append((dict(it, mark=mk), r['san']))
+                if r['status'] != 'tainted' or not r.get('san'):
+                    crashes.append(dict(status=r['status'], mark=mk, item=it,
+                                        detail=r.get('detail', '')[-1500:]))
+                it2 = dict(it)
+                it2['skip'] = list(it.get('skip', [])) + [mk.get('id')]
+                again.append(it2)
+            else:
+                m.add(it, r)
+        todo = again
+    return m, crashes
 
 
 def san_violations(merge, verdict, classify=None, count_nonrepo=False):
